@@ -75,6 +75,7 @@ def run(rep: core.Report):
     rep.instance("R02b", DYN, "get_dynmat_ij", "block address (i*3 + a) * 3 num_patom + j*3 + b", ok_adr, "the 3x3 block of the pair (i, j) is not stored at rows 3i.., columns 3j..", line=tu.line(gij))
     # ---- R02c ------------------------------------------------------------
     fwd = core.find_def(PYDM, "DynamicalMatrix._run_py_dynamical_matrix")
+    core.require_names(fwd, ["phase", "vec", "q", "fc_elem", "phase_factor", "sqrt_mm", "m", "k", "dm_local", "mass", "i", "j", "s_i", "s_j", "is_compact_fc", "svecs_at", "svecs", "multi", "adrs", "ll", "fc", "dm"], f"{PYDM}::_run_py_dynamical_matrix")
     defs = {core.src(st.targets[0]): st.value for st in ast.walk(fwd) if isinstance(st, ast.Assign) and isinstance(st.targets[0], ast.Name)}
     loops_py = [lp_ for lp_ in ast.walk(fwd) if isinstance(lp_, ast.For)]
     iters = {core.src(lp_.target): core.src(lp_.iter) for lp_ in loops_py}
@@ -110,6 +111,7 @@ def run(rep: core.Report):
     rep.instance("R02c", PYDM, "DynamicalMatrix._run_py_dynamical_matrix", "row of the force constants: fc[s_i] for the full layout, fc[i] for the compact one", ok_rows, "the row of the first atom is taken from the wrong layout", line=fwd.lineno)
     # ---- R02d ------------------------------------------------------------
     fm = core.find_def(PYDM, "_get_fc_elements_mapping")
+    core.require_names(fm, ["p2s_map", "s2p_map", "p2p_map", "fc"], f"{PYDM}::_get_fc_elements_mapping")
     test = [n_ for n_ in fm.body if isinstance(n_, ast.If)]
     if len(test) != 1:
         raise AnalysisError("R02d: _get_fc_elements_mapping lost its layout test")
